@@ -446,7 +446,7 @@ RefIntegrity == (pc = "done" /\ ~panic) =>
 \* names given by one namespace to the definitions themselves never coincide (what Add guarantees)
 DirectNamesDistinct == \A i, j \in 1..Len(res) : i # j => res[i].name # res[j].name
 
-\* Export: every completed behaviour with a clash, a panic or a rename, and a 1-in-P.sample selection of the others
+\* Export: every completed behaviour with a clash or a panic, and a 1-in-P.sample selection of the others
 \* (a fixed arithmetic selection over the drafted names); the rest is only counted ("N <entry>").
 FnIdxs(f) == <<f.n>> \o [j \in 1..Len(f.args) |-> f.args[j].n] \o [j \in 1..Len(f.throws) |-> f.throws[j].n + 1]
 DefIdxs(d) == <<d.n + Rank(d.k)>> \o [j \in 1..Len(d.fs) |-> d.fs[j].n] \o Flatten([j \in 1..Len(d.fns) |-> FnIdxs(d.fns[j])], 1)
@@ -454,7 +454,7 @@ RECURSIVE Mix(_, _)
 Mix(sq, k) == IF k > Len(sq) THEN 0 ELSE (sq[k] * (31 + 6 * k) + Mix(sq, k + 1)) % 9973
 Selected == P.sample = 1 \/ Mix(Flatten([i \in 1..Len(defs) |-> DefIdxs(defs[i])], 1), 1) % P.sample = 0
 Emit == pc = "done" =>
-          IF panic \/ ~NoClash \/ ren > 0 \/ Selected
+          IF panic \/ ~NoClash \/ (ren > 0 /\ P.sample = 1) \/ Selected
           THEN PrintT("CASE " \o ToJson([e |-> ent, defs |-> defs, res |-> res, panic |-> panic, clash |-> ~NoClash /\ ~panic,
                                          ren |-> ren, clashes |-> IF NoClash \/ panic THEN {} ELSE Clashes]))
           ELSE PrintT("N " \o ToString(ent))
